@@ -202,7 +202,9 @@ def _p256_points():
     # a valid point whose x is small enough for x + p to fit 32 bytes: (x + p, y) is the same residue, but not a field element
     xs = next(x for x in range(1, 200) if pow((x ** 3 + _P.a * x + _P.b) % p, (p - 1) // 2, p) == 1)
     ys = pow((xs ** 3 + _P.a * xs + _P.b) % p, (p + 1) // 4, p)
-    return [('small-x', xs, ys, True), ('small-x + p', xs + p, ys, False),('G', gx, gy, True), ('-G', gx, p - gy, True), ('2G', g2.x, g2.y, True), ('kG', g7.x, g7.y, True),
+    # 872*G: with the fourth private scalar below the shared secret's first octet is 0x00 (a fixed-width encoding matters)
+    lz = (0xd2118af490daed5c65cbb1ca729cd72e3fc0ce93fd975e217811e5e7e2aa9a3c, 0x3577403f1e16ea89a2430a9438051e1389bd697e8abe8bc044b094c19b3be207)
+    return [('872G (secret starts with 0x00 for scalar 3)', lz[0], lz[1], True), ('small-x', xs, ys, True), ('small-x + p', xs + p, ys, False),('G', gx, gy, True), ('-G', gx, p - gy, True), ('2G', g2.x, g2.y, True), ('kG', g7.x, g7.y, True),
             ('zero', 0, 0, False), ('one', 1, 1, False), ('Gx,Gy+1', gx, gy + 1, False), ('Gx+1,Gy', gx + 1, gy, False), ('Gx,0', gx, 0, False),
             ('Gy,Gx', gy, gx, False), ('Gx,Gy+p', gx, (gy + p) % (1 << 256), False), ('x=p', p, gy, False), ('max', (1 << 256) - 1, (1 << 256) - 1, False),
             ('Gx,Gy^1', gx, gy ^ 1, False), ('Gx,Gy^msb', gx, gy ^ (1 << 255), False)]
@@ -211,13 +213,13 @@ def _p256_points():
 _PTS = None
 
 
-@harness(pre=['0 <= i <= 16 and 0 <= d <= 4'], family='point-validation', twin=True, kernels=K, timeout=(100, 300),
+@harness(pre=['0 <= i <= 17 and 0 <= d <= 4'], family='point-validation', twin=True, kernels=K, timeout=(100, 300),
          canaries=[('ecdh-without-point-validation', _canary_no_validation)],
-         bounds='P-256, both back ends: 17 representative peer coordinate pairs (5 valid, 12 invalid incl. out-of-range, non-canonical x + p of a valid point, swapped, one-bit-off, y+p) x 5 private scalars (1, 2, n-1, two mid-range): invalid pairs raise in both, valid pairs give identical secrets in both, used twice on the same key object')
+         bounds='P-256, both back ends: 18 representative peer coordinate pairs (6 valid incl. one whose shared secret starts with a zero octet, 12 invalid incl. out-of-range, non-canonical x + p of a valid point, swapped, one-bit-off, y+p) x 5 private scalars (1, 2, n-1, two mid-range): invalid pairs raise in both, valid pairs give identical secrets in both, used twice on the same key object')
 def p256_point_validation_both_backends(i: int, d: int) -> bool:
     global _PTS
     from bumble.crypto import cryptography as lib
-    i, d = C(i, 0, 16), C(d, 0, 4)
+    i, d = C(i, 0, 17), C(d, 0, 4)
     with untraced():
         if _PTS is None:
             _PTS = _p256_points()
